@@ -130,10 +130,15 @@ where
             toml::to_string_pretty(&cargo_toml).unwrap(),
         )?;
 
+        #[cfg(pilota_verif)]
+        let verif_gate = crate::verif_gate::region("crates", entry_deps.len());
+
         entry_deps
             .par_iter()
             .try_for_each_with(this, |this, (k, deps)| {
                 let name = this.cx().crate_name(k);
+                #[cfg(pilota_verif)]
+                let _verif_turn = verif_gate.enter(&name);
                 let deps = deps.iter().filter(|dep| dep.1 != ***k).collect_vec();
                 let (main_mod_path, re_pubs, deps) = match k {
                     DefLocation::Fixed(_, path) => (
